@@ -16,14 +16,14 @@ RULE = (
     "width, arrays with boundary capacities 2**8/2**16/2**32 +-1 and up to 2**63, nested references) built through "
     "DSDL text + read_namespace and through the public constructors; every type object reachable in the model is "
     "compared with R-layout (min/max, residues for affordable divisors, full expansion when <=4096 elements, alignment, "
-    "extent, prefix/tag/header widths). Non-trivial: definition nests >=2 constructors; distinct by universe description."
+    "extent, prefix/tag/header widths); the same on pickled / deep-copied / copied forms of the objects. Non-trivial: definition nests >=2 constructors; distinct by universe description."
 )
 ASSUMPTIONS = [
     "R-layout (pv/ref/layout.py) restates the Specification's layout rules quoted in the property",
     "2**32-variant unions cannot be materialised; the 32->64 bit boundary is covered for array prefixes only",
 ]
 MIN_MONITORS = {"bls-minmax": 25000, "bls-mod": 200000, "bls-expand": 15000, "align": 20000, "prefix": 2000, "tag": 1200,
-                "header": 1500, "extent": 4000, "route-agree": 600, "str": 15000, "service": 600}
+                "header": 1500, "extent": 4000, "route-agree": 600, "str": 15000, "service": 600, "copies": 2000}
 THOROUGH_MIN_SCALE = 8
 
 
@@ -127,6 +127,14 @@ def check_universe(ctx, pydsdl, u, objs, case, route, indices=None):
             check_type(ctx, lay, u, fo.data_type, td, case, "%s.%s" % (where, f.get("name", "void")), pydsdl)
 
 
+def check_copies(ctx, pydsdl, u, objs, case, route, rng):
+    """The layout statements hold for the model objects however they reached the caller: pickled / copied ones included."""
+    for label, cs in GT.copies(objs, rng):
+        ctx.mon("copies")
+        ctx.cls("copy-" + label)
+        check_universe(ctx, pydsdl, u, cs, case, "%s/%s" % (route, label))
+
+
 def check_service(ctx, pydsdl, u, sobj, svc, case, route):
     """Each section of a service is a composite of its own with the layout of the definition whose body it repeats."""
     ctx.mon("service")
@@ -166,6 +174,9 @@ def run_case(ctx, pydsdl, u, text_ok, seed, workdir):
         ctx.violation("C02/rejected", "constructors rejected a valid universe: %r" % ex, case)
         return
     check_universe(ctx, pydsdl, u, routes["ctor"], case, "ctor")
+    copy_rng = random.Random(seed ^ 0xC0B1)
+    if seed % 2 == 0:
+        check_copies(ctx, pydsdl, u, routes["ctor"], case, "ctor", copy_rng)
     svc = None
     if seed % 3 == 0:
         # a service whose request / response sections repeat the bodies of two definitions of the universe
@@ -189,6 +200,8 @@ def run_case(ctx, pydsdl, u, text_ok, seed, workdir):
         finally:
             shutil.rmtree(d, ignore_errors=True)
         check_universe(ctx, pydsdl, u, routes["text"], case, "text")
+        if seed % 2 == 1:
+            check_copies(ctx, pydsdl, u, routes["text"], case, "text", copy_rng)
         if svc:
             sobj = routes["extras"].get((GT.SERVICE_NAME, 1, 0))
             if sobj is None:
